@@ -25,6 +25,7 @@ checks = {
  "C17": ("S", "exploration", s_text("Headers are marked invalid (best chain at any in-memory depth, side branch, first of branch, not yet seen, already marked, unknown hash, config supplied) and unmarked, with Save/restart between; the tip must be the heaviest chain not built on a marked header, flags and verdicts must follow."), NOTE_S + " Marking history that has left memory (deeper than the prune depth) is excluded from generation; see DESIGN.md findings.", S),
  "C18": ("S", "exploration", s_text("Headers carry real merkle roots over 1-9 generated txids; standard proofs (with header / block hash only) for blocks on the best chain, side branches and pruned history must verify with the reference height and flag at every point of the history, and each single-element corruption must fail."), NOTE_S + " Proof arithmetic itself is dependency code, cross-checked against an independent merkle implementation.", S),
  "C19": ("S", "exploration", s_text("GetLocatorHashes(max) is checked for membership, newest-first order from the tip's parent, no duplicates and the maximum; a simulated conformant peer on every root-to-leaf path of the reference tree answers the locator and its first header must connect."), NOTE_S, S),
+ "C20": ("S", "fault_enumeration", "Seeded operation sequences over the real peer address book inside a synctest bubble (fake clock) are compared with an ordered-list reference after every call; for sampled states EVERY prefix of the saved file (every cut near every record boundary for files over 1500 bytes) and mutated files (negative/huge count and address length, random bytes, flipped bytes, version) are loaded into fresh repositories: no crash, and exactly the peers fully written before the cut are kept. Exhaustive over cut points within each sampled file, sampled over histories.", "One caller at a time (each method holds the lock from entry to exit; concurrent callers are an order of calls). Worker processes run under RLIMIT_AS 4 GiB so that a 16 GiB allocation sized from a corrupt count aborts deterministically. Record boundaries obtained black-box from saved file lengths.", S + "; file-prefix enumeration"),
 }
 NA = {}
 ALL = ["C%02d" % i for i in range(1, 21)]
@@ -32,7 +33,7 @@ ALL = ["C%02d" % i for i in range(1, 21)]
 def main():
     m = {
       "version": 1,
-      "setup_cmd": "cd /verif/sim && GOFLAGS=-mod=mod GOPROXY=off GOSUMDB=off GOTOOLCHAIN=local CGO_ENABLED=0 go1.26.8 build -tags verif -o bin/simcheck ./cmd/simcheck",
+      "setup_cmd": "cd /verif/sim && GOFLAGS=-mod=mod GOPROXY=off GOSUMDB=off GOTOOLCHAIN=local CGO_ENABLED=0 go1.26.8 test -c -vet=off -tags verif -o bin/simcheck ./cmd/simcheck",
       "hooks": {
         "guard": "verif (Go build tag)",
         "enable": "checks build the simulator with `go1.26.8 build -tags verif` against `replace github.com/tokenized/bitcoin_reader => /repo`; the hook files (/repo/verif_hooks.go, /repo/headers/verif_hooks.go) carry `//go:build verif`",
